@@ -148,6 +148,7 @@ func checkC39(c *Check) {
 	// retiring a worker: closing its channel (the goroutine then exits) and taking it out of `created` go together, once
 	// each, in the same block — in every function of the package, not in a fixed list: a decrement elsewhere (for
 	// example when the goroutine exits) counts the same worker twice and lets Get start workers beyond the limit
+	poolClosedAfterConnectionsFinished(c, r, P)
 	isWorkerChanClose := func(cn *CallN) bool {
 		if cn.Builtin != "close" || len(cn.ArgExprs) != 1 {
 			return false
@@ -282,7 +283,7 @@ func checkC39(c *Check) {
 	}
 	if ir := r.ir(P + ".HandlerContext.releaseRequest"); ir != nil {
 		txt := irText(ir)
-		c.Ob("memory/release-reqTaken-once", "HandlerContext.releaseRequest", regexp.MustCompile(`call Server\.releaseRequestBuf recv=val\(item\.reqTaken, item\.request\) -> \[\]\n\s*assign item\.reqTaken = #0`).MatchString(txt), r.pos(ir.Info.Decl.Pos()), "passes hctx.reqTaken to releaseRequestBuf and zeroes it, so a second release is a no-op")
+		c.Ob("memory/release-reqTaken-once", "HandlerContext.releaseRequest", regexp.MustCompile(`call Server\.releaseRequestBuf recv=val\(item\.reqTaken, item\.request\) -> \[\]\n(?:\s*assign [^\n]*\n)*?\s*assign item\.reqTaken = #0`).MatchString(txt), r.pos(ir.Info.Decl.Pos()), "passes hctx.reqTaken to releaseRequestBuf and zeroes it, so a second release is a no-op")
 	}
 	// who may call acquireRequestBuf / reqMemSem.Release
 	for _, s := range r.callSitesOf(P, "Server", "acquireRequestBuf") {
@@ -296,4 +297,96 @@ func checkC39(c *Check) {
 	c.Floor("workers/pool-lockset", 15)
 	c.Floor("workers/callHandler-callers", 2)
 	c.Floor("memory/request-buffers-owner", 1)
+}
+
+// poolClosedAfterConnectionsFinished: closing the worker pool makes every request that is waiting for a worker run on
+// its connection's goroutine instead (Get returns no worker once the pool is closed), so the pool may be closed only
+// when no connection can still dispatch: every call of workerPool.Close is preceded, in the same block, by WaitEmpty on
+// the connection semaphore. That semaphore is identified by its role — the one acquired in the function that accepts
+// connections — not by its name.
+func poolClosedAfterConnectionsFinished(c *Check, r *repoCtx, P string) {
+	const rule = "workers/pool-closed-after-connections-finished"
+	fieldOf := func(recv string) string {
+		if i := strings.LastIndex(recv, "."); i >= 0 {
+			return recv[i:]
+		}
+		return recv
+	}
+	connSem := map[string]bool{}
+	type site struct {
+		name string
+		ir   *FuncIR
+	}
+	var closers []site
+	for _, name := range sortedKeys(r.funcs) {
+		fi := r.funcs[name]
+		if !strings.HasPrefix(name, P+".") || fi.Decl.Body == nil {
+			continue
+		}
+		ir := r.ir(name)
+		if ir == nil {
+			continue
+		}
+		accepts, closes := false, false
+		var acquired []string
+		walkBlock(ir.Body, nil, func(n Node, _ []Guard) {
+			cn, ok := n.(*CallN)
+			if !ok {
+				return
+			}
+			nm := cn.Builtin
+			if cn.Fn != nil {
+				nm = funcDisplayName(cn.Fn)
+			}
+			switch {
+			case strings.HasSuffix(nm, "Accept") || strings.HasPrefix(nm, "dyn:") && strings.HasSuffix(nm, ".Accept"):
+				accepts = true
+			case nm == "Weighted.Acquire":
+				acquired = append(acquired, fieldOf(cn.Recv))
+			case nm == "workerPool.Close":
+				closes = true
+			}
+		})
+		if accepts {
+			for _, a := range acquired {
+				connSem[a] = true
+			}
+		}
+		if closes {
+			closers = append(closers, site{name, ir})
+		}
+	}
+	if len(connSem) == 0 {
+		c.Undecided(rule, "connection semaphore", "", "no function of pkg/rpc both accepts connections and acquires a Weighted semaphore")
+		return
+	}
+	for _, s := range closers {
+		var visit func(b Block)
+		visit = func(b Block) {
+			waited := false
+			for _, n := range b {
+				switch n := n.(type) {
+				case *CallN:
+					if n.Fn == nil {
+						continue
+					}
+					switch funcDisplayName(n.Fn) {
+					case "Weighted.WaitEmpty":
+						if connSem[fieldOf(n.Recv)] {
+							waited = true
+						}
+					case "workerPool.Close":
+						c.Ob(rule, strings.TrimPrefix(s.name, P+"."), waited, r.pos(n.Pos), fmt.Sprintf("workerPool.Close() preceded in its block by WaitEmpty on the connection semaphore %v: %v", sortedKeys(connSem), waited))
+					}
+				case *IfN:
+					visit(n.Then)
+					visit(n.Else)
+				case *LoopN:
+					visit(n.Body)
+				}
+			}
+		}
+		visit(s.ir.Body)
+	}
+	c.Floor(rule, 1)
 }
